@@ -1,1 +1,9 @@
 (* C09 *)
+
+(* tie to the source: the nullable expansion of the model is the function regenerated from cfg/utils_cfg.py on every build *)
+From Coq Require Import List.
+From PFL Require Import Base.ListSet Spec.Cfg Model.Cfg Gen.PyFun Proofs.GenTieC09.
+Theorem C09_nullable_sub_from_source : forall (Vr : Type) (E : EqDec Vr) (nul : list Vr) (body : list (symb Vr)),
+  py_remove_nullable_production_sub nul body = nullable_sub nul body.
+Proof. exact (@py_nullable_sub_eq). Qed.
+Print Assumptions C09_nullable_sub_from_source.
